@@ -5837,7 +5837,19 @@ class Symbol:
 
             return BOOL_TO_STR[val]
 
-        if self.orig_type:  # STRING/INT/HEX
+        if self.orig_type:  # STRING/INT/HEX/FLOAT
+            # Without a user value, a value weakly set by 'set default' wins over the defaults (see str_value)
+            for candidate_val, cond, _ in self.weak_rev_values:
+                if expr_value(cond) and expr_value(self.direct_dep):
+                    if self.orig_type == STRING:
+                        return candidate_val.str_value
+                    if self.orig_type == FLOAT:
+                        if is_float(candidate_val.name):
+                            return _normalize_float(candidate_val.name)
+                    elif _is_base_n(candidate_val.name, _TYPE_TO_BASE[self.orig_type]):
+                        return candidate_val.name
+                    break
+
             for default, cond in self.defaults:
                 if expr_value(cond):
                     return default.str_value
